@@ -29,7 +29,7 @@ Init == /\ \E ds \in DictSizes : \E p \in Presets : L2Init(ds, p, TRUE)
 Room(n) == cprod + n <= MaxOut
 
 BeginLzma == \E lvl \in 0..3 : \E usize \in 1..ChunkUncompMax : \E csize \in {1, ChunkCompMax} :
-             \E pb \in {-1, 93} :
+             \E pb \in {-1, 93, 0} :
                 /\ Room(usize)
                 /\ LzmaChunkBegin(128 + 32 * lvl + (usize - 1) \div 65536, usize, csize, pb, TRUE)
                 /\ agg' = Agg0
@@ -45,9 +45,10 @@ EndLzma == /\ LzmaChunkEndBytes
            /\ agg' = Agg0
 Unc == \E ctl \in {1, 2} : \E bs \in UNION {[1..k -> Alphabet] : k \in 1..2} :
            /\ Room(Len(bs)) /\ UncChunk(ctl, Len(bs), bs, TRUE) /\ agg' = Agg0
+Update == \E nb \in {93, 0} : PropsUpdate(nb) /\ agg' = Agg0
 End == EndChunk /\ UNCHANGED agg
 
-Next == BeginLzma \/ SymLit \/ SymMatch \/ SymRep \/ SymShortRep \/ EndLzma \/ Unc \/ End
+Next == BeginLzma \/ SymLit \/ SymMatch \/ SymRep \/ SymShortRep \/ EndLzma \/ Unc \/ Update \/ End
 Spec == Init /\ [][Next]_vars
 
 ----------------------------------------------------------------------------
@@ -56,6 +57,8 @@ TypeOK == LzTypeOK /\ L2TypeOK
 CountersAgree == /\ (ch = NoChunk) => (cprod = Produced /\ cavail = Avail)
                  /\ (ch # NoChunk) => (ch.start = cprod /\ cavail + (Produced - ch.start) = Avail)
 PropsKnownInChunk == (ch # NoChunk) => props # -1
+\* inside a chunk the decoder's props are the ones the caller asked for last (a chunk after PropsUpdate carries them)
+PropsAreTheConfigured == (ch # NoChunk /\ cfgp # -1) => props = cfgp
 \* inside an LZMA chunk a matched literal always has its byte (between chunks an uncompressed chunk with
 \* dictionary reset may leave a stale state, but the props obligation forces a state reset before it is used)
 MatchedLiteralInChunk == (ch # NoChunk) => MatchedLiteralHasByte
